@@ -63,7 +63,9 @@ LAYOUTS = [
 # foreach items: falsy values are items like any other
 FOREACH_LISTS = [[1, 2], ['a'], [], [[1], [2, 3]], '{lst}', {'py': {'n': 'lst'}}, [None, 0], '{empty}', ['x', 'y', 'z'],
                  {'d': [['ka', 1], ['kb', 2]]}, ['a', None], [None], [0, ''], [False, 'b'], [[], {'d': []}], [None, 'z'],
-                 '{falsy}', ['', False, 0], 'ab', '{tup}', '{k1}']
+                 '{falsy}', ['', False, 0], 'ab', '{tup}', '{k1}',
+                 # values Python's == cannot tell apart (a called group's loop leaves an equal `i` of another type)
+                 [0, False, {'f': [0, 0]}], [1, True, {'f': [1, 0]}], [True, 1], [{'f': [1, 0]}, 1, 2]]
 # iterables that are none: `for i in foreach` raises TypeError (outside run/skip/swallow: not recorded)
 FOREACH_BAD = [5, True, {'py': {'c': 3}}, '{n1}', {'f': [3, 1]}]
 
@@ -76,9 +78,13 @@ BAD_ITEMS = [{'item': 1}, {'item': None}, {'item': [1, 2]}, {'item': {'f': [1, 1
              {'name': 7, 'retry': {'bad': [1]}}]
 
 ERR_NAMES = ['ValueError', 'TypeError', 'RuntimeError', 'vprobe.ProbeError', 'vprobe.OtherError', 'KeyError',
-             'vprobe.FalsyError', 'built.BuiltError', 'main.MainError']
-TRUTHY = [True, 'true', 'True', 'TRUE', '1', '1.0', 1, 2, [0], 'tRuE']
-FALSY = [False, 'false', 'False', '0', '', 'yes', 0, [], None, ' true', 'no']
+             'vprobe.FalsyError', 'built.BuiltError', 'main.MainError',
+             # classes declared inside a class / a function / with module __main__ (harness/probe/built.py, main.py)
+             'built.Fatal', 'built.Quota', 'MainNested']
+# container literals are judged as written (their members - unresolvable expressions, stray braces - are not looked at)
+TRUTHY = [True, 'true', 'True', 'TRUE', '1', '1.0', 1, 2, [0], 'tRuE', ['{nokey}'], {'d': [['a', '{']]}, {'sic': 'false'},
+          {'f': [1, 0]}, [{'py': {'n': 'nokey'}}]]
+FALSY = [False, 'false', 'False', '0', '', 'yes', 0, [], None, ' true', 'no', {'d': []}, {'f': [0, 0]}, 'ignore']
 
 
 def pyname(n):
@@ -141,7 +147,8 @@ class Gen:
             sets = {}
             for _ in range(self.r.randint(1, 2)):
                 k = self.pick(['k1', 'k2', 'flag', 'n1', 't1', 'f1', 'i', 'whileCounter', 'retryCounter'])
-                sets[k] = self.pick([True, False, 0, 1, 5, 'x', 'true', [1], 'true' if k == 'flag' else 'z'])
+                sets[k] = self.pick([True, False, 0, 1, 5, 'x', 'true', [1], 'true' if k == 'flag' else 'z', {'f': [1, 0]},
+                                     {'f': [2, 0]}, 2, ''])
             kw['set'] = D(**sets)
         if self.chance(0.08):
             kw['del'] = self.r.sample(['k1', 'i', 'whileCounter', 'retryCounter', 'call', 'flag'],
